@@ -257,6 +257,13 @@ func sext(e expr.Expr, signBit uint8, w expr.Width) expr.Expr {
 
 func sext32To64(e expr.Expr) expr.Expr { return sext(e, 31, expr.Width64) }
 
+// signedRem is the signed division reminder of RISC-V: it has the sign of the
+// dividend, the dividend is returned for a zero divisor and zero on overflow.
+func signedRem(e1, e2 expr.Expr, w expr.Width) expr.Expr {
+	div := exprtools.SignedDiv(e1, e2, w)
+	return exprtools.Sub(e1, expr.NewBinary(expr.Mul, div, e2, w), w)
+}
+
 func memLoad(addr expr.Expr, w expr.Width) expr.Expr {
 	return expr.NewMemLoad(MemoryKey, addr, w)
 }
